@@ -22,6 +22,7 @@ Classify(o) ==
     [] o.t = "ssn"     -> ClassSSN(o.s)
     [] o.t = "routing" -> ClassRouting(o.s)
     [] o.t = "account" -> ClassAccount(o.s)
+    [] o.t = "prefix5" -> ClassPrefix5(o.s)
     [] o.t = "string"  -> R("must", 0)
 
 Declared(o) ==
